@@ -269,7 +269,7 @@ func (w *dworld) deliver(ev event, last bool) {
 	}
 	var ctx context.Context = &cowCtx{Context: context.Background()}
 	cancel := func() {}
-	if ev.dec == nil || ev.dec.ID <= st.p+1 {
+	if !wouldWait(ev.data, st.p) {
 		ctx, cancel = bgCtx()
 	}
 	var hdr *schema.TxHeader
